@@ -32,6 +32,37 @@ pub enum Ans {
     Error,
     /// Ok(0) although data / space was available
     Zero,
+    /// the call returns Pending once (waking itself), then transfers everything
+    Pending,
+}
+
+/// A future that is Pending exactly once and wakes itself.
+pub struct YieldOnce(pub bool);
+
+impl Future for YieldOnce {
+    type Output = ();
+
+    fn poll(mut self: std::pin::Pin<&mut Self>, cx: &mut Context<'_>) -> Poll<()> {
+        if self.0 {
+            Poll::Ready(())
+        } else {
+            self.0 = true;
+            cx.waker().wake_by_ref();
+            Poll::Pending
+        }
+    }
+}
+
+/// Poll a future up to `max` times (the scripted environment may answer Pending-then-wake).
+pub fn run_polls<F: Future>(f: F, max: usize) -> Option<F::Output> {
+    let mut f = pin!(f);
+    let mut cx = Context::from_waker(Waker::noop());
+    for _ in 0..max {
+        if let Poll::Ready(v) = f.as_mut().poll(&mut cx) {
+            return Some(v);
+        }
+    }
+    None
 }
 
 pub struct EnvState {
@@ -46,6 +77,10 @@ pub struct EnvState {
     /// restrict the alphabet (e.g. no EOF-now for readers that model a stream that only ends at its end)
     pub allow_zero: bool,
     pub allow_err: bool,
+    pub allow_pending: bool,
+    pub allow_interrupt: bool,
+    /// offer every chunk size 1..m (all compositions) instead of {1, m-1}
+    pub all_sizes: bool,
 }
 
 pub type Env = Rc<RefCell<EnvState>>;
@@ -62,6 +97,9 @@ pub fn new_env(ch: Chooser, horizon: usize) -> Env {
         livelock: false,
         allow_zero: true,
         allow_err: true,
+        allow_pending: false,
+        allow_interrupt: true,
+        all_sizes: false,
     }))
 }
 
@@ -86,13 +124,22 @@ impl EnvState {
             return Ans::Error;
         }
         let mut opts = vec![Ans::N(m)];
-        if m >= 2 {
-            opts.push(Ans::N(1));
+        if self.all_sizes {
+            opts.extend((1..m).map(Ans::N));
+        } else {
+            if m >= 2 {
+                opts.push(Ans::N(1));
+            }
+            if m >= 3 {
+                opts.push(Ans::N(m - 1));
+            }
         }
-        if m >= 3 {
-            opts.push(Ans::N(m - 1));
+        if self.allow_interrupt {
+            opts.push(Ans::Interrupted);
         }
-        opts.push(Ans::Interrupted);
+        if self.allow_pending {
+            opts.push(Ans::Pending);
+        }
         if self.allow_err {
             opts.push(Ans::Error);
         }
@@ -137,8 +184,12 @@ impl AsyncRead for ScriptReader {
     async fn read<B: IoBufMut>(&mut self, mut buf: B) -> BufResult<usize, B> {
         let cap = buf.buf_capacity();
         let m = cap.min(self.data.len() - self.pos);
-        let a = self.env.borrow_mut().decide(m);
+        let mut a = self.env.borrow_mut().decide(m);
         self.env.borrow_mut().reads.push((cap, a.clone()));
+        if a == Ans::Pending {
+            YieldOnce(false).await;
+            a = Ans::N(m);
+        }
         match a {
             Ans::N(n) => {
                 fill_buf(&mut buf, &self.data[self.pos..self.pos + n]);
@@ -147,7 +198,7 @@ impl AsyncRead for ScriptReader {
             }
             Ans::Zero => BufResult(Ok(0), buf),
             Ans::Interrupted => BufResult(Err(interrupted()), buf),
-            Ans::Error => BufResult(Err(other_err()), buf),
+            Ans::Error | Ans::Pending => BufResult(Err(other_err()), buf),
         }
     }
 
@@ -188,7 +239,7 @@ impl AsyncRead for ScriptReader {
             }
             Ans::Zero => BufResult(Ok(0), buf),
             Ans::Interrupted => BufResult(Err(interrupted()), buf),
-            Ans::Error => BufResult(Err(other_err()), buf),
+            Ans::Error | Ans::Pending => BufResult(Err(other_err()), buf),
         }
     }
 }
@@ -213,7 +264,7 @@ impl AsyncReadAt for ScriptReaderAt {
             }
             Ans::Zero => BufResult(Ok(0), buf),
             Ans::Interrupted => BufResult(Err(interrupted()), buf),
-            Ans::Error => BufResult(Err(other_err()), buf),
+            Ans::Error | Ans::Pending => BufResult(Err(other_err()), buf),
         }
     }
 }
@@ -224,6 +275,8 @@ pub struct ScriptWriter {
     /// maximal number of bytes the sink accepts in total (None = unbounded)
     pub room: Option<usize>,
     pub native_vectored: bool,
+    /// if set: records how many sink bytes had been written when the last successful flush happened
+    pub flushed_upto: Option<Rc<std::cell::Cell<usize>>>,
 }
 
 impl ScriptWriter {
@@ -233,6 +286,7 @@ impl ScriptWriter {
             sink: vec![],
             room: None,
             native_vectored: false,
+            flushed_upto: None,
         }
     }
 }
@@ -244,8 +298,12 @@ impl AsyncWrite for ScriptWriter {
             Some(r) => len.min(r - self.sink.len()),
             None => len,
         };
-        let a = self.env.borrow_mut().decide(m);
+        let mut a = self.env.borrow_mut().decide(m);
         self.env.borrow_mut().writes.push((len, a.clone()));
+        if a == Ans::Pending {
+            YieldOnce(false).await;
+            a = Ans::N(m);
+        }
         match a {
             Ans::N(n) => {
                 self.sink.extend_from_slice(&buf.as_init()[..n]);
@@ -253,7 +311,7 @@ impl AsyncWrite for ScriptWriter {
             }
             Ans::Zero => BufResult(Ok(0), buf),
             Ans::Interrupted => BufResult(Err(interrupted()), buf),
-            Ans::Error => BufResult(Err(other_err()), buf),
+            Ans::Error | Ans::Pending => BufResult(Err(other_err()), buf),
         }
     }
 
@@ -288,7 +346,7 @@ impl AsyncWrite for ScriptWriter {
             }
             Ans::Zero => BufResult(Ok(0), buf),
             Ans::Interrupted => BufResult(Err(interrupted()), buf),
-            Ans::Error => BufResult(Err(other_err()), buf),
+            Ans::Error | Ans::Pending => BufResult(Err(other_err()), buf),
         }
     }
 
@@ -302,6 +360,10 @@ impl AsyncWrite for ScriptWriter {
         let n = if e.allow_err { 3 } else { 1 };
         let c = e.ch.deviate(n);
         let a = [Ans::N(0), Ans::Interrupted, Ans::Error][c].clone();
+        let shared_sink = self.flushed_upto.clone();
+        if let (Ans::N(_), Some(f)) = (&a, shared_sink) {
+            f.set(self.sink.len());
+        }
         e.flushes.push(a.clone());
         match a {
             Ans::N(_) => Ok(()),
@@ -338,7 +400,7 @@ impl AsyncWriteAt for ScriptWriterAt {
             }
             Ans::Zero => BufResult(Ok(0), buf),
             Ans::Interrupted => BufResult(Err(interrupted()), buf),
-            Ans::Error => BufResult(Err(other_err()), buf),
+            Ans::Error | Ans::Pending => BufResult(Err(other_err()), buf),
         }
     }
 }
